@@ -9,8 +9,16 @@ HERE=$(cd "$(dirname "$0")" && pwd)
 BIN="$HERE/sim/target/release/harness"
 T=$(mktemp -d /tmp/verif-det.XXXXXX); trap 'rm -rf "$T"' EXIT
 rc=0
+# usage: tools_determinism.sh [extra seeds...]   the default seed is always compared; every extra VERIF_SEED value
+# given on the command line (e.g. 1 2 3) is compared the same way, and must not raise a violation either
+for seed in "${VERIF_SEED:-20260927}" "$@"; do
+export VERIF_SEED=$seed
+echo "== VERIF_SEED=$seed"
 for id in C06 C10 C12 C16; do
-  for w in 16 5; do VERIF_ROOT="$T/w$w" VERIF_WORKERS=$w VERIF_NO_PROCESS_HOP=1 "$BIN" exec $id quick >/dev/null 2>&1; done
+  for w in 16 5; do
+    VERIF_ROOT="$T/w$w" VERIF_WORKERS=$w VERIF_NO_PROCESS_HOP=1 "$BIN" exec $id quick >"$T/out.$w" 2>&1; r=$?
+    [ $r -eq 0 ] || { echo "!! $id seed $seed workers $w: exit $r"; grep -E "VIOLATION|violation class|HARNESS" "$T/out.$w" | head -5; rc=1; }
+  done
   python3 - "$T" "$id" <<'PY' || rc=1
 import json,sys
 t,i=sys.argv[1:3]
@@ -19,5 +27,6 @@ ok = a["determinism"]["batch_digest"]==b["determinism"]["batch_digest"] and a["d
 print(i, "runs", a["evaluations"], "digest16", a["determinism"]["batch_digest"], "digest5", b["determinism"]["batch_digest"], "OK" if ok else "MISMATCH")
 sys.exit(0 if ok else 1)
 PY
+done
 done
 exit $rc
